@@ -1,5 +1,6 @@
 """C18 - replaying a captured snapshot script restores the captured state."""
 import os
+import re
 import shutil
 
 from hypothesis import given, seed, strategies as st
@@ -21,7 +22,11 @@ RULE = (
     'file WebApp.snapshot() writes - is captured in state 1, the devices are '
     'put into state 2, the text is compiled and run by the production stack, '
     'and every plain light must hold the captured HSBK and power, every zone '
-    'and every cell its captured colour, exactly. Non-trivial = at least one '
+    'and every cell its captured colour, exactly. A third of the direct '
+    'captures are of some lights only (`lscap -s NAME`, `lscap -s -r '
+    'PATTERN`: generate() with a name, present or not, or a compiled '
+    'pattern): the lights the name / pattern selects are restored exactly '
+    'and no other light gets a command. Non-trivial = at least one '
     'light of each kind and at least one value that is not a multiple of the '
     'logical grid. Distinct by population + states.')
 ASSUMPTIONS = [
@@ -96,7 +101,20 @@ def cases(draw, trailing_backslash_ok):
             other['cells'] = [draw(color()) for _ in range(height * width)]
         population.append(spec)
         second.append(other)
-    return {'population': population, 'second': second}
+    case = {'population': population, 'second': second}
+    # `lscap -s NAME` / `lscap -s -r PATTERN`: a capture of some lights only
+    choice = draw(st.integers(0, 5))
+    if choice == 0 and labels:
+        case['filter'] = ['name', draw(st.sampled_from(labels))]
+    elif choice == 1:
+        case['filter'] = ['name', draw(names(trailing_backslash_ok))]
+    elif choice == 2 and labels:
+        chosen = draw(st.lists(st.sampled_from(labels), min_size=1,
+                               max_size=3, unique=True))
+        cut = draw(st.integers(1, 4))
+        case['filter'] = ['regex', '|'.join(
+            re.escape(label[:cut]) for label in chosen)]
+    return case
 
 
 def check_case(acc, case, via_web=False):
@@ -108,11 +126,25 @@ def check_case(acc, case, via_web=False):
     kinds = {spec['kind'] for spec in population}
     off_grid = any(v % 655 for spec in population for v in spec['color'][:3])
     nontrivial = kinds >= {'plain', 'mz', 'matrix'} and off_grid
+    selector = case.get('filter') if not via_web else None
+    if selector is None:
+        captured = {spec['label'] for spec in population}
+        argument = None
+    elif selector[0] == 'name':
+        captured = {spec['label'] for spec in population
+                    if spec['label'] == selector[1]}
+        argument = selector[1]
+    else:
+        # what snapshot.main() does with -r; "the lights with names that
+        # start with" the pattern
+        argument = re.compile(selector[1])
+        captured = {spec['label'] for spec in population
+                    if re.match(selector[1], spec['label'])}
     try:
         if via_web:
             text = capture_via_web(world)
         else:
-            text = ScriptSnapshot().generate(None).text
+            text = ScriptSnapshot().generate(argument).text
     except RetrieveMismatch as ex:
         acc.case(key=repr(case), nontrivial=nontrivial,
                  labels=['snapshot', 'web'])
@@ -135,8 +167,11 @@ def check_case(acc, case, via_web=False):
             device.cells = [list(c) for c in other['cells']]
     result = world.run(text, budget=400000)
     acc.case(key=repr(case), nontrivial=nontrivial,
-             labels=['snapshot', 'web' if via_web else 'direct'] + sorted(
-                 'kind:' + k for k in kinds),
+             labels=['snapshot', 'web' if via_web else 'direct',
+                     'filter:' + (selector[0] if selector else 'none'),
+                     'captured:' + ('all' if len(captured) == len(population)
+                                    else 'none' if not captured else 'some')]
+             + sorted('kind:' + k for k in kinds),
              sample={'lights': [[s['label'], s['kind']] for s in population],
                      'script_head': text[:300]}
              if nontrivial and len(acc.samples) < 3 else None)
@@ -151,9 +186,21 @@ def check_case(acc, case, via_web=False):
         return
     for message in world.lan.protocol_errors[:1]:
         acc.fail('protocol', message, payload)
-    for spec in population:
+    for spec, other in zip(population, second):
         device = world.lan.device(spec['label'])
         label = spec['label']
+        if label not in captured:
+            # not part of the capture: the replay leaves it alone
+            touched = [e for e in device.attempts
+                       if e[1].startswith('set_')]
+            state = (device.color, device.power, device.zones, device.cells)
+            if touched or state != (
+                    other['color'], other['power'], other.get('zone_colors'),
+                    other.get('cells')):
+                acc.fail('uncaptured-light-changed',
+                         'capture of {} only: light {!r} got {} on replay'
+                         .format(selector, label, touched[:2]), payload)
+            continue
         if spec['kind'] == 'plain':
             if device.color != spec['color']:
                 acc.fail('plain-colour',
